@@ -53,6 +53,54 @@ def expected_report(iver, vec, as_json):
     return "\n".join(lines) + "\n"
 
 
+import re as _re
+
+_NUM = _re.compile(r"^\d+(\.\d+)?$")
+_RATING = _re.compile(r"^\(?(None|Low|Medium|High|Critical)\)?$")
+_VEC = _re.compile(r"^(\d+(\.\d+)?/)?(CVSS:\d\.\d/)?[A-Za-z]+:[A-Za-z]+(/[A-Za-z]+:[A-Za-z]+)*$")
+
+
+def _split_json(report):
+    m = _re.search(r"^\{", report, _re.M)
+    if not m:
+        return report, None
+    try:
+        from collections import OrderedDict
+        return report[:m.start()], list(json.loads(report[m.start():], object_pairs_hook=OrderedDict).items())
+    except ValueError:
+        return report[:m.start()], "unparsable"
+
+
+def report_tokens(report):
+    """The VALUES a scores report carries, in order, whatever its layout (labels, padding, heading are not constrained by
+    C17): score texts, ratings, vectors, and the JSON document (parsed, with its key order)."""
+    text, doc = _split_json(report)
+    toks = []
+    for t in text.split():
+        if _NUM.match(t) or _VEC.match(t):
+            toks.append(t)
+        elif _RATING.match(t):
+            toks.append(t.strip("()"))
+    return toks, doc
+
+
+def same_content(report, want, ver):
+    """(agrees, exactly): exact text, or - layout-tolerant - every value the API reports (score texts, ratings, clean and
+    Red Hat vector) occurs in the report, in the API's order, and the JSON document is the same with the same key order"""
+    if report == want:
+        return True, True
+    if not want.startswith("CVSS%s\n" % ver):        # an error message: it must be printed, whatever surrounds it
+        return (want.strip() != "" and want.strip() in report and not any(_VEC.match(t) for t in report_tokens(report)[0])), False
+    wt, wdoc = report_tokens(want)
+    text, doc = _split_json(report)
+    words = iter(w.strip("()") if _RATING.match(w) else w for w in text.split())
+    return all(any(w == t for w in words) for t in wt) and doc == wdoc, False
+
+
+def shows_scores(report, ver):
+    return report.startswith("CVSS%s\n" % ver) or any(_VEC.match(t) for t in report_tokens(report)[0])
+
+
 def argv_of(flags, vec):
     argv = []
     for f in flags:
@@ -100,8 +148,11 @@ def check(ctx, flags, vec, answers):
                 ctx.violation("%s:eof-not-clean" % sig_v, "end of input during interactive entry does not end with a bare newline", rp, "\n", report, replay=rp)
         else:
             want = expected_report(iver, want_vec, "j" in flags)
-            if report != want:
-                kind = "error-message" if not want.startswith("CVSS") else "report"
+            agrees, exactly = same_content(report, want, iver[0])
+            if agrees and not exactly:
+                ctx.aux("cli-report-layout-differs-from-the-frozen-layout", rp, want[:300], report[:300])
+            if not agrees:
+                kind = "error-message" if not want.startswith("CVSS%s\n" % iver[0]) else "report"
                 ctx.violation("%s:%s-differs-from-api" % (sig_v, kind), "the calculator's output differs from what the library API reports", rp, want, report, replay=rp)
     return res, report
 
@@ -158,8 +209,7 @@ def run(ctx):
         for i, verdict in zip(sel, acc):
             f, v, a = cases[i]
             ver = selected(f)[0][0]
-            shows_scores = reports[i].startswith("CVSS%s\n" % ver)
-            if (verdict == "ok") != shows_scores:
+            if (verdict == "ok") != shows_scores(reports[i], ver):
                 ctx.violation("v%s:%s" % (selected(f)[0], "valid-vector-reported-as-error" if verdict == "ok" else "invalid-vector-scored"),
                               "the calculator's verdict on VECTOR differs from the version's grammar (possibly after earlier sessions in the process)",
                               {"argv": argv_of(f, v), "earlier_interactive_sessions": len(hist[:hist_at[i]])}, verdict, reports[i][:200],
@@ -195,6 +245,9 @@ def run(ctx):
                 if rep == api and not api.startswith("CVSS" + iver[0] + "\n"):
                     ok = True
                     ctx.aux("model-vs-code:message-text:cli", {"argv": argv_of(f, v)}, want[:200], rep[:200])
+            if not ok and want.startswith("CVSS%s\n" % selected(f)[0][0]) and same_content(rep, want, selected(f)[0][0])[0]:
+                ok = True      # same values in the same order, another layout: no property constrains the layout
+                ctx.aux("model-vs-code:cli-report-layout", {"argv": argv_of(f, v)}, want[:200], rep[:200])
             if not ok:
                 ctx.disagree("model-vs-code:cli-report", {"argv": argv_of(f, v), "stdin": a}, want[:300], rep[:300])
     # the COMPLETE stdout (interactive dialogue incl. colours + report + message texts): model vs code
@@ -276,6 +329,9 @@ def replay(data):
 
         def violation(self, sig, what, *a, **k):
             self.v.append(sig + ": " + what)
+
+        def aux(self, *a, **k):
+            pass
     c = C()
     for hargv, hstdin in r.get("history") or []:
         inter.run_main(hargv, hstdin)
@@ -283,7 +339,7 @@ def replay(data):
     if r.get("history") is not None and vec and core.sendable(vec):
         iver, _ = selected(flags)
         verdict = core.run_driver(["S\tacc\t%s\t%s" % (iver[0], enc(vec))])[0]
-        if (verdict == "ok") != (report or "").startswith("CVSS%s\n" % iver[0]):
+        if (verdict == "ok") != shows_scores(report or "", iver[0]):
             c.v.append("after %d earlier interactive sessions the calculator's verdict (%r) differs from the grammar (%s)" % (
                 len(r["history"]), (report or "")[:80], verdict))
     return not c.v, "cvss_calculator %r stdin=%r -> exit %s, stdout %r; %s" % (argv, r["stdin"], res["exit"], res["stdout"][-400:], "; ".join(c.v) or "as the API reports")
